@@ -1,5 +1,4 @@
 // Verifier-only ghost state.  Single-threaded (Kani has no threads): plain `static mut`.
-#![allow(static_mut_refs)]
 
 pub(crate) const MAX_OBJ: usize = 4;
 
